@@ -422,6 +422,25 @@ def tf_mint(pid):
     return f
 
 
+def venue_booking(pid):
+    """vn.kdep .. now expected pre post / vn.kwd .. : accepted by the implementation where the model (what the handler must
+    make of the venue's answer) refuses, or a different booking"""
+    def f(op, impl, model):
+        if not (op.startswith("vn.kdep") or op.startswith("vn.kwd")):
+            return None
+        what = "kamino_deposit" if op.startswith("vn.kdep") else "kamino_withdraw"
+        a = op.split()
+        if impl.startswith("ok") and model.startswith("err"):
+            tail = a[-4:] if what == "kamino_deposit" else a[-8:]
+            names = "now expected obligation-before obligation-after" if what == "kamino_deposit" else "now amount all expected obligation-before obligation-after vault-before vault-after"
+            return (f"{pid} {what} ACCEPTS a venue answer that its own after-the-fact checks must refuse ({model}): {names} = {' '.join(tail)}")
+        if impl.startswith("ok") and model.startswith("ok") and impl != model:
+            return (f"{pid} {what} books or pays something else than the collateral that moved in the bank's obligation / the tokens that arrived: "
+                    f"implementation [{impl[:300]}] vs exact [{model[:300]}]")
+        return None
+    return f
+
+
 def c06_accrual(op, impl, model):
     """b.accrue <bank 16> ..  =>  ok <bank 16> <last_update> ..: same share values, different fee buckets"""
     if not op.startswith("b.accrue"):
@@ -449,15 +468,15 @@ WITNESS = {
     "C07": [c07_health, c07_soc],
     "C09": [c09_health],
     "C16": [c16_foc, c16_tags],
-    "C03": [ixf_tokens("C03"), tf_mint("C03")],
+    "C03": [ixf_tokens("C03"), tf_mint("C03"), venue_booking("C03")],
     "C17": [c17_limits],
     "C06": [c06_accrual],
     "C19": [c19_emissions, tf_mint("C19")],
-    "C02": [c02_closebank],
+    "C02": [c02_closebank, venue_booking("C02")],
     "C11": [c11_health],
     "C10": [bracket_conditions("C10"), c10_health],
-    "C20": [c20_venue_value, c20_fail_closed],
-    "C01": [ixf_tokens("C01"), tf_mint("C01")],
+    "C20": [c20_venue_value, c20_fail_closed, venue_booking("C20")],
+    "C01": [ixf_tokens("C01"), tf_mint("C01"), venue_booking("C01")],
 }
 
 
